@@ -147,7 +147,7 @@ class BooleanOption(ConfigOption[bool]):
 class IntegerOption(ConfigOption[int]):
     @classmethod
     def parse(cls: "type[IntegerOption]", data: object, source_path: Path) -> int:
-        if isinstance(data, int):
+        if isinstance(data, int) and not isinstance(data, bool):
             return data
         raise InvalidConfigOption.from_parser(cls, "int", data)
 
@@ -416,6 +416,8 @@ def _parse_config_section(
                     seen_paths=seen_paths,
                 )
         elif key == "disable_all":
+            if not isinstance(value, bool):
+                raise InvalidConfigOption("disable_all must be a bool")
             disable_all_default_error_codes = value
         else:
             try:
